@@ -12,7 +12,7 @@ CFG = {
     "level_note": "single node only: the columnar frame wire between data node and coordinator is not exercised (no cluster harness); trusted: the canonical rendering; unordered queries with a limit are compared by size only, ordered ones by sequence",
     "budget": {"quick": 60, "thorough": 1200},
     "rule": ("each seed draws a schema, 2-8 history steps, 4-12 requests of all shapes; both twins replay the history and answer. Non-trivial = all answers equal; distinct = canonical event-log digests"),
-    "expected_probes": ["reach.request_refused_or_failed"],
+    "expected_probes": ["reach.aggregate_over_null_field", "reach.request_refused_or_failed"],
     "real_vs_stub": {
         "real": ["pkg/query/vectorized/** (measure, stream plans, dispatch, batches)", "banyand/measure query_vectorized.go, banyand/stream query_vectorized.go", "row path: pkg/query/logical/** + executors", "banyand/query processors (dispatch/fallback)"],
         "stub": ["metadata registry (simmeta)", "gRPC transport", "clock (testing/synctest)", "no liaison<->data node frames"],
